@@ -319,15 +319,29 @@ func system(rec *mon.Recorder, c int) {
 			ids = append(ids, id)
 			items = append(items, &pb.BatchItem{Id: id.Bytes(), Value: []float32{float32(2000 + i), 1, 2}, Metadata: map[string]string{"p": "multi"}})
 		}
+		// in every second round the request also carries items that are refused (wrong dimension), first and in the
+		// middle: where the others go depends on their own id only
+		request := items
+		if round%2 == 1 {
+			bad := func() *pb.BatchItem {
+				var id uuid.UUID
+				rng.Read(id[:])
+				return &pb.BatchItem{Id: id.Bytes(), Value: []float32{1, 2}}
+			}
+			request = append([]*pb.BatchItem{bad()}, items[:n/2]...)
+			request = append(request, bad())
+			request = append(request, items[n/2:]...)
+			rec.Count("multi_partition_batches_with_refused_items", 1)
+		}
 		for _, step := range []string{"batch-insert", "batch-update", "batch-remove"} {
 			cctx, cancel := context.WithTimeout(ctx, 10*time.Second)
 			var errs map[uuid.UUID]error
 			var err error
 			switch step {
 			case "batch-insert":
-				errs, err = entry.Dataset(dsId).BatchInsert(cctx, items)
+				errs, err = entry.Dataset(dsId).BatchInsert(cctx, request)
 			case "batch-update":
-				errs, err = cl.Nodes[(round+1)%nodes].Dataset(dsId).BatchUpdate(cctx, items)
+				errs, err = cl.Nodes[(round+1)%nodes].Dataset(dsId).BatchUpdate(cctx, request)
 			default:
 				errs, err = cl.Nodes[(round+2)%nodes].Dataset(dsId).BatchRemove(cctx, items)
 			}
